@@ -20,20 +20,20 @@ import (
 
 // batchInfo is the resolved structure of the batch verifier.
 type batchInfo struct {
-	p      *load.Program
-	rl     *roles.Roles
-	fn     *ssa.Function
-	loops  []*b.Loop
-	chunk  *b.Loop
-	inner  map[string]*b.Loop // by role
-	rem    *b.Loop
-	initL  *b.Loop
-	numPhi, offPhi *ssa.Phi
-	bs     ssa.Value
-	names  map[string]string // leaf renaming for canonical keys
+	p                          *load.Program
+	rl                         *roles.Roles
+	fn                         *ssa.Function
+	loops                      []*b.Loop
+	chunk                      *b.Loop
+	inner                      map[string]*b.Loop // by role
+	rem                        *b.Loop
+	initL                      *b.Loop
+	numPhi, offPhi             *ssa.Phi
+	bs                         ssa.Value
+	names                      map[string]string // leaf renaming for canonical keys
 	okCell, retCell, validCell *ssa.Alloc
-	validIsN bool // the validity vector is make([]bool, len(publicKeys)), assigned once
-	model  *pt.Model
+	validIsN                   bool // the validity vector is make([]bool, len(publicKeys)), assigned once
+	model                      *pt.Model
 }
 
 func constInt(v ssa.Value) (int64, bool) {
@@ -1274,6 +1274,7 @@ func (bi *batchInfo) chunkLevel(r *rep.Report, fl *flags) {
 		r.Check(kinds[k] > 0, "B5-returns", cfg, "VerifyBatch has the documented exit: "+k, "", fmt.Sprintf("%d return sites", kinds[k]), "no return site of kind "+k+" (the documented exits are: options error, count mismatch, entropy error, result)")
 	}
 	_ = nret
+	bi.argCounts(r)
 	// result vector: make([]bool, num) all set true by the init loop
 	if bi.initL != nil {
 		rps, _ := bi.regionTop(r, bi.initL)
@@ -1342,4 +1343,294 @@ func (bi *batchInfo) regionTop(r *rep.Report, l *b.Loop) ([]*rpath, string) {
 		out = append(out, &rpath{pa: pa})
 	}
 	return out, ""
+}
+
+// argCounts (B0-arg-counts): the entry loops are reached exactly when the three input slices have the same length;
+// every other length combination returns (false, nil, non-nil error). Decided on the prologue's paths over all
+// (len(publicKeys), len(messages), len(sigs)) in {0,1,2}^3 — equality tests cannot tell larger values apart.
+func (bi *batchInfo) argCounts(r *rep.Report) {
+	cfg, fn := bi.p.Cfg.Name, bi.fn
+	hdr := map[*ssa.BasicBlock]bool{}
+	for _, l := range bi.loops {
+		hdr[l.Header] = true
+	}
+	paths, err := pt.EnumerateRegion(fn, bi.model, nil, func(bb *ssa.BasicBlock) bool { return hdr[bb] })
+	if err != nil || len(paths) == 0 {
+		r.Fail("B0-arg-counts", cfg, "VerifyBatch prologue is modelled", ssau.Pos(bi.p, fn.Pos()), "batch:prologue", fmt.Sprint("cannot enumerate the prologue: ", err))
+		return
+	}
+	for _, pa := range paths {
+		pt.NormalisePath(pa)
+	}
+	lenOf := func(t *pt.Term, l [3]int) (int, bool) {
+		if n, ok := constOf(t); ok {
+			return int(n), true
+		}
+		switch t.String() {
+		case "len(P1)":
+			return l[0], true
+		case "len(P2)":
+			return l[1], true
+		case "len(P3)":
+			return l[2], true
+		}
+		return 0, false
+	}
+	var bad []string
+	note := func(s string) {
+		if len(bad) < 4 {
+			bad = append(bad, s)
+		}
+	}
+	unrec := map[string]bool{}
+	n := 0
+	for w := 0; w < 27*4; w++ {
+		l := [3]int{w % 3, (w / 3) % 3, (w / 9) % 3}
+		unwrapOK, randNil := (w/27)&1 == 0, (w/54)&1 == 0
+		var hit []*pt.Path
+		for _, pa := range paths {
+			ok := true
+			for _, a := range pa.Atoms {
+				var v, known bool
+				switch {
+				case strings.HasPrefix(a.Key, "eq(nil,res(unwrap("):
+					v, known = unwrapOK, true
+				case a.Key == "eq(P0,nil)" || a.Key == "eq(nil,P0)":
+					v, known = randNil, true
+				case (a.T.Op == "eq" || a.T.Op == "lt" || a.T.Op == "gt" || a.T.Op == "le" || a.T.Op == "ge") && len(a.T.Args) == 2:
+					x, ok1 := lenOf(a.T.Args[0], l)
+					y, ok2 := lenOf(a.T.Args[1], l)
+					if ok1 && ok2 {
+						known = true
+						switch a.T.Op {
+						case "eq":
+							v = x == y
+						case "lt":
+							v = x < y
+						case "gt":
+							v = x > y
+						case "le":
+							v = x <= y
+						case "ge":
+							v = x >= y
+						}
+					}
+				}
+				if !known {
+					unrec[a.Key] = true
+					ok = false
+					break
+				}
+				if v != a.Val {
+					ok = false
+					break
+				}
+			}
+			if ok {
+				hit = append(hit, pa)
+			}
+		}
+		if len(hit) != 1 {
+			note(fmt.Sprintf("lengths %v: %d consistent prologue paths", l, len(hit)))
+			continue
+		}
+		n++
+		pa := hit[0]
+		same := l[0] == l[1] && l[1] == l[2]
+		switch {
+		case !unwrapOK:
+			if pa.Kind != "return" {
+				note("an options error does not return")
+			}
+		case !same:
+			okR := pa.Kind == "return" && len(pa.Results) == 3 && pa.Results[0].String() == "#false" && pa.Results[1].String() == "nil" && pa.Results[2].String() != "nil" && !strings.HasPrefix(pa.Results[2].String(), "res(unwrap(")
+			if !okR {
+				note(fmt.Sprintf("lengths (publicKeys, messages, sigs) = %v are accepted: the prologue %s instead of returning the count-mismatch error", l, map[bool]string{true: "returns " + fmt.Sprint(pa.Results), false: "continues into the entry loops"}[pa.Kind == "return"]))
+			}
+		default:
+			if pa.Kind == "return" && !(l[0] == 0 && len(pa.Results) == 3 && pa.Results[0].String() == "#true" && pa.Results[2].String() == "nil") {
+				note(fmt.Sprintf("equal lengths %v are refused: %v", l, pa.Results))
+			}
+		}
+	}
+	for k := range unrec {
+		note("unrecognised prologue guard " + k)
+	}
+	r.Check(len(bad) == 0, "B0-arg-counts", cfg, "VerifyBatch reaches the entry loops exactly when len(publicKeys) == len(messages) == len(sigs); any other combination returns the count-mismatch error", ssau.Pos(bi.p, fn.Pos()),
+		fmt.Sprintf("%d worlds (3 lengths in {0,1,2} x options error x nil reader) x %d prologue paths", n, len(paths)), strings.Join(bad, "; "))
+}
+
+// ruleMsmFinal (B9-final-ladder): the function that finishes the multi-scalar multiplication ([s]P for the one
+// surviving term). Its accumulator must be a group element on every path: a copy of the point, or the neutral element
+// (0, 1, 1, 0) — never the all-zero value, which absorbs every addition and passes the identity test. Scalar 1 returns
+// the point, scalar 0 the neutral element; the ladder doubles once per bit and adds the point exactly when the bit is set.
+func ruleMsmFinal(r *rep.Report, p *load.Program, rl *roles.Roles) {
+	cfg := p.Cfg.Name
+	if rl.Msm == nil {
+		return
+	}
+	mod, _, _ := ssau.Reachable(rl.Msm)
+	var fn *ssa.Function
+	for _, f := range mod {
+		if f.Pkg != rl.Msm.Pkg || f.Signature.Params().Len() != 3 {
+			continue
+		}
+		ps := f.Signature.Params()
+		if strings.HasSuffix(ps.At(0).Type().String(), "ge25519.Ge25519") && strings.HasSuffix(ps.At(1).Type().String(), "ge25519.Ge25519") && strings.HasSuffix(ps.At(2).Type().String(), "modm.Bignum256") {
+			if fn != nil {
+				fn = nil
+				break
+			}
+			fn = f
+		}
+	}
+	if fn == nil {
+		r.Fail("B9-final-ladder", cfg, "the final single-scalar multiplication of the multi-scalar routine is identified", "", "batch:final", "no unique func(r, point *Ge25519, scalar *Bignum256) reachable from the multi-scalar routine (unrecognised shape)")
+		return
+	}
+	m := geModel()
+	loops := b.Loops(fn)
+	hdr := map[*ssa.BasicBlock]bool{}
+	for _, l := range loops {
+		hdr[l.Header] = true
+	}
+	var bad []string
+	note := func(s string) {
+		if len(bad) < 5 {
+			bad = append(bad, s)
+		}
+	}
+	acc := func(pa *pt.Path) string {
+		reset, y1, z1, copyP, other := false, false, false, false, false
+		for _, e := range pa.Events {
+			switch {
+			case e.Callee == "store" && len(e.Args) == 1 && addrStr(e, 0) == "addr(P0)":
+				if e.Args[0].String() == "P1" || e.Args[0].String() == "deref(P1)" {
+					copyP, reset, y1, z1 = true, false, false, false
+				} else {
+					other = true
+				}
+			case strings.HasSuffix(e.Callee, ".Reset") && addrStr(e, 0) == "addr(P0)":
+				reset, copyP, y1, z1 = true, false, false, false
+			case e.Callee == "store" && len(e.Args) == 1 && e.Args[0].String() == "#1" && addrStr(e, 0) == "addr(local:P0.y,#0)":
+				y1 = true
+			case e.Callee == "store" && len(e.Args) == 1 && e.Args[0].String() == "#1" && addrStr(e, 0) == "addr(local:P0.z,#0)":
+				z1 = true
+			case e.Callee == "store" && strings.HasPrefix(addrStr(e, 0), "addr(local:P0"):
+				other = true
+			case e.Callee == "ge25519.Copy" || e.Callee == "curve25519.Copy":
+				other = true
+			}
+		}
+		switch {
+		case other:
+			return "other"
+		case copyP:
+			return "point"
+		case reset && y1 && z1:
+			return "neutral"
+		case reset:
+			return "all-zero"
+		}
+		return "unset"
+	}
+	pro, err := pt.EnumerateRegion(fn, m, nil, func(bb *ssa.BasicBlock) bool { return hdr[bb] })
+	if err != nil {
+		note("prologue: " + err.Error())
+	}
+	one, zero := "modm.IsOneVartime(P2)", "modm.IsZeroVartime(P2)"
+	for w := 0; w < 4; w++ {
+		world := map[string]bool{one: w&1 != 0, zero: w&2 != 0}
+		if world[one] && world[zero] {
+			continue
+		}
+		var hit []*pt.Path
+		for _, pa := range pro {
+			pt.NormalisePath(pa)
+			ok := true
+			for _, a := range pa.Atoms {
+				v, known := world[a.Key]
+				if !known {
+					note("unrecognised test " + a.Key)
+					ok = false
+					break
+				}
+				if v != a.Val {
+					ok = false
+				}
+			}
+			if ok {
+				hit = append(hit, pa)
+			}
+		}
+		if len(hit) != 1 {
+			note(fmt.Sprintf("scalar is one=%v zero=%v: %d paths", world[one], world[zero], len(hit)))
+			continue
+		}
+		pa, st := hit[0], acc(hit[0])
+		switch {
+		case world[one]:
+			if pa.Kind != "return" || st != "point" {
+				note("scalar 1: the result is " + st + ", want the point itself")
+			}
+		case world[zero]:
+			if pa.Kind != "return" || st != "neutral" {
+				note("scalar 0: the result is " + st + ", want the neutral element (0, 1, 1, 0)")
+			}
+		default:
+			if pa.Kind == "return" {
+				note("a scalar other than 0 and 1 returns without the ladder")
+			} else if st != "point" && st != "neutral" {
+				note("the ladder starts from an accumulator that is " + st + ", not a group element (the point or the neutral element)")
+			}
+		}
+	}
+	// the ladder
+	nl := 0
+	for _, l := range loops {
+		has := false
+		for blk := range l.Blocks {
+			for _, in := range blk.Instrs {
+				if c, ok := in.(*ssa.Call); ok {
+					if f := c.Common().StaticCallee(); f != nil && f.Name() == "Double" {
+						has = true
+					}
+				}
+			}
+		}
+		if !has {
+			continue
+		}
+		nl++
+		ll := l
+		ps, err := pt.EnumerateRegion(fn, m, l.Header, func(bb *ssa.BasicBlock) bool { return bb == ll.Header || !ll.Blocks[bb] })
+		if err != nil {
+			note("ladder: " + err.Error())
+		}
+		for _, pa := range ps {
+			pt.NormalisePath(pa)
+			bit, seenBit := false, false
+			for _, a := range pa.Atoms {
+				if strings.HasPrefix(a.Key, "eq(#0,and(P2[") {
+					bit, seenBit = !a.Val, true
+				}
+			}
+			var evs []string
+			for _, e := range pa.Events {
+				evs = append(evs, e.Callee+"("+addrStr(e, 0)+","+addrStr(e, 1)+","+addrStr(e, 2)+")")
+			}
+			want := []string{"ge25519.Double(addr(P0),addr(P0),-)"}
+			if bit {
+				want = append(want, "ge25519.Add(addr(P0),addr(P0),addr(P1))")
+			}
+			if !seenBit || strings.Join(evs, ";") != strings.Join(want, ";") {
+				note(fmt.Sprintf("ladder step with the scalar bit %v does %v, want %v", bit, evs, want))
+			}
+		}
+	}
+	if nl != 1 {
+		note(fmt.Sprintf("%d ladder loops", nl))
+	}
+	r.Check(len(bad) == 0, "B9-final-ladder", cfg, "the final [s]P of the multi-scalar routine: s=1 gives P, s=0 the neutral element, otherwise a double-and-add ladder over an accumulator that is a group element", ssau.Pos(p, fn.Pos()),
+		"three scalar cases and the ladder step compared with the specification", strings.Join(bad, "; "))
 }
